@@ -453,19 +453,24 @@ pub fn derive_extended_key(master: &ExtendedKey, path: &str) -> Result<ExtendedK
             return Err(ChainGangError::BadArgument(msg.to_string()));
         }
 
-        let index = if part.ends_with('\'') || part.ends_with('h') || part.ends_with('H') {
-            let index: u32 = part
-                .trim_end_matches('\'')
-                .trim_end_matches('h')
-                .trim_end_matches('H')
-                .parse()?;
+        // one optional hardened marker (', h or H) after a non-empty string of decimal digits
+        let (digits, hardened) = match part.strip_suffix(|c| c == '\'' || c == 'h' || c == 'H') {
+            Some(digits) => (digits, true),
+            None => (*part, false),
+        };
+        if digits.is_empty() || !digits.bytes().all(|b| b.is_ascii_digit()) {
+            let msg = "Key index must be decimal digits with at most one hardened marker";
+            return Err(ChainGangError::BadArgument(msg.to_string()));
+        }
+        let index: u32 = digits.parse()?;
+        let index = if hardened {
             if index >= HARDENED_KEY {
                 let msg = "Key index is already hardened";
                 return Err(ChainGangError::BadArgument(msg.to_string()));
             }
             index + HARDENED_KEY
         } else {
-            part.parse()?
+            index
         };
 
         key = match key_type {
